@@ -74,6 +74,7 @@ def field_traits(f):
 class Gen:
     def __init__(self):
         self.items = []
+        self.decls = {}      # ident -> what the DEFINITION says about each retained field / variant (independent reading)
         self.n_items = 0
         self.aid = 0
         self.cur = 0
@@ -102,6 +103,15 @@ class Gen:
         if f.deny:
             parts.append("deny(" + ", ".join(f'{k}="{v}"' for k, v in sorted(f.deny.items())) + ")")
         return parts
+
+    def arm_decl(self, f, place, place_mut, variant=None, fty=None):
+        """what a retained field / variant payload promises per operation (documentation of the attributes)"""
+        return {"name": (f.rename or f.name) if f is not None else None, "variant": variant, "place": place,
+                "place_mut": place_mut, "type": fty,
+                "get": getattr(f, "aid", 0) if f is not None and f.get else 0,
+                "get_mut": getattr(f, "aid", 0) if f is not None and f.get_mut else 0,
+                "validate": getattr(f, "aid", 0) if f is not None and f.validate else 0,
+                "deny": dict(f.deny) if f is not None else {}}
 
     def derive(self, t):
         tr = traits(t)
@@ -137,6 +147,7 @@ class Gen:
             name = self.fresh()
             t.rust_name = name
             lines = []
+            decl_arms = []
             for f in t.fields:
                 if f.skip:
                     lines.append(f"    #[tree(skip)] pub {f.name}: {f.ty},")
@@ -144,6 +155,7 @@ class Gen:
                 fty = self.ty(f.ty)
                 store = f"slot_{f.name}" if f.defer else f.name
                 parts = self.attrs(f, f"&self.{store}", f"&mut self.{store}")
+                decl_arms.append(self.arm_decl(f, f"self.{store}", f"self.{store}", fty=fty))
                 if f.defer:
                     parts = [f'typ="{fty}"', f"defer=self.{store}"] + parts
                     lines.append(f"    #[tree({', '.join(parts)})] pub {f.name}: (),")
@@ -153,26 +165,31 @@ class Gen:
                     lines.append(f"    {a}pub {f.name}: {fty},")
             flat = "#[tree(flatten)]\n" if t.flat else ""
             self.items.append(f"{self.derive(t)}\n{flat}pub struct {name} {{\n" + "\n".join(lines) + "\n}\n")
+            self.decls[name] = {"kind": "struct", "flat": t.flat, "traits": sorted(traits(t)), "arms": decl_arms}
             return name
         if isinstance(t, TStruct):
             name = self.fresh()
             t.rust_name = name
             parts_all = []
+            decl_arms = []
             for i, f in enumerate(t.fields):
                 if f.skip:
                     parts_all.append(f"#[tree(skip)] pub {f.ty}")
                     continue
                 fty = self.ty(f.ty)
                 parts = self.attrs(f, f"&self.{i}", f"&mut self.{i}")
+                decl_arms.append(self.arm_decl(f, f"self.{i}", f"self.{i}", fty=fty))
                 a = f"#[tree({', '.join(parts)})] " if parts else ""
                 parts_all.append(f"{a}pub {fty}")
             flat = "#[tree(flatten)]\n" if t.flat else ""
             self.items.append(f"{self.derive(t)}\n{flat}pub struct {name}(" + ", ".join(parts_all) + ");\n")
+            self.decls[name] = {"kind": "tstruct", "flat": t.flat, "traits": sorted(traits(t)), "arms": decl_arms}
             return name
         if isinstance(t, Enum):
             name = self.fresh()
             t.rust_name = name
             lines = []
+            decl_arms = []
             for v in t.variants:
                 if v.ty is None:
                     lines.append(f"    {'#[tree(skip)] ' if v.skip else ''}{v.name},")
@@ -185,11 +202,15 @@ class Gen:
                 if v.attrs:
                     parts = self.attrs(v.attrs, "value", "value")
                     fa = f"#[tree({', '.join(parts)})] " if parts else ""
+                d = self.arm_decl(v.attrs, "value", "value", variant=v.name, fty=fty)
+                d["name"] = v.rename or v.name
+                decl_arms.append(d)
                 tail = "".join(", #[tree(skip)] u8" for _ in range(v.skip_tail))
                 ren = f"#[tree(rename={v.rename})] " if v.rename else ""
                 lines.append(f"    {ren}{v.name}({fa}{fty}{tail}),")
             flat = "#[tree(flatten)]\n" if t.flat else ""
             self.items.append(f"{self.derive(t)}\n{flat}pub enum {name} {{\n" + "\n".join(lines) + "\n}\n")
+            self.decls[name] = {"kind": "enum", "flat": t.flat, "traits": sorted(traits(t)), "arms": decl_arms}
             return name
         raise TypeError(t)
 
@@ -269,7 +290,7 @@ def main(out_rs, out_json):
         same = False
     if not same:
         open(out_rs, "w").write(text)
-    json.dump({"types": entries}, open(out_json, "w"), indent=0)
+    json.dump({"types": entries, "decls": g.decls}, open(out_json, "w"), indent=0)
 
 
 if __name__ == "__main__":
